@@ -199,7 +199,7 @@ func init() {
 		Title:   "WKT output round-trips and reads the same in an independent WKT reader",
 		Rule:    "models in the property's domain (finite ordinates incl. -0, 5e-324, 1.8e308; one uniform layout in XY/XYZ/XYM/XYZM; linestrings of 0 or >=2 points; closed rings of >=4 points; EMPTY members anywhere; collections nested to depth 4 carrying their layout): wkt.Marshal text must be accepted by wkt.Unmarshal and by the independent reader (numbers converted through exact rational arithmetic) and both must equal the model bit for bit; 8 spellings per model over {mixed case, whitespace/newlines/tabs, bare/parenthesised multipoint members, attached/detached suffix, exponent numbers} must parse to the same model. distinct_nontrivial = distinct non-empty shape signatures",
 		Assume:  []string{"reference WKT reader and speller in harness/ref, pinned by OGC SFA examples (go test ./ref)"},
-		Classes: []fw.Class{{Name: "roundtrip", Quick: 25000, Thorough: 1000000, Run: c05Run}},
+		Classes: []fw.Class{{Name: "roundtrip", Quick: 40000, Thorough: 1000000, Run: c05Run}},
 		Require: []string{"with_EMPTY_member", "with_EMPTY_member_before_nonempty", "kind_GeometryCollection", "kind_MultiPolygon", "spelling_mixed-case", "spelling_newline-or-tab", "spelling_bare-multipoint-member", "spelling_parenthesised-multipoint-member", "spelling_detached-suffix", "spelling_attached-suffix", "spelling_exponent"},
 	})
 }
